@@ -180,12 +180,9 @@ def parseReqs (s : String) : List CReq :=
       pre := pre.mergeSort (fun a b => strLe a.1 b.1),
       uri := splitNE (g 3) "|", body := splitNE (g 4) "|", post := splitNE (g 5) "|", xh := xh }
 
-/-- a header literally named `url` or `body`: the text templater's cache key `<scenario>_<step>_<key>` is also used
-for the URI (`url`) and the body (`body`) — finding `tmpl-cache` -/
-def collides (r : CReq) : Bool := r.xh.any fun (n, _) => n == "url" || n == "body"
-
 def prePath (code : String) : String :=
   if code == "n" then "source.users[next].id"
+  else if code == "m" then "source.vars.users[next].id"
   else if code == "l" then "source.users[last].name"
   else if code == "r" then "source.users[rand].name"
   else if code.startsWith "i" then "source.users[" ++ (code.drop 1).toString ++ "].name"
@@ -247,7 +244,7 @@ def renderReq (reqs : List CReq) (rows : Nat) (d : ReqDef) (t : List (String × 
       let hdrs := r.pre.map fun (v, code) =>
         let val := match lookupPath t ["request", r.name, "preprocessor", v] with
           | some x => valText x | none => "<no value>"
-        if code == "n" then "N." ++ v ++ "=" ++ escv val
+        if code == "n" || code == "m" then "N." ++ v ++ "=" ++ escv val
         else "V." ++ v ++ "=" ++ escv (if code == "r" then "ok" else val)
       let hdrs := hdrs ++ xs
       let hs := if hdrs.isEmpty then "-" else String.intercalate "," (hdrs.mergeSort strLe)
@@ -337,8 +334,14 @@ def reqDefOf (reqs : List CReq) (scs : List ScenarioCfg) (name : List Char) : Op
       iter := iterOf scs name
       posts := postIds reqs r.name }
 
-def sourceVal (rows : Nat) : Val :=
-  .map [("users", .list ((List.range rows).map fun k => .map [("id", .str s!"u{k}"), ("name", .str s!"n{k}")]))]
+/-- the data sources: `users` (file/csv, `rows` rows) and — when the case has `L2=` — `vars` (file/json) holding a
+list that is also called `users` -/
+def sourceVal (rows : Nat) (rows2 : Option Nat := none) : Val :=
+  .map ([("users", .list ((List.range rows).map fun k => .map [("id", .str s!"u{k}"), ("name", .str s!"n{k}")]))] ++
+    match rows2 with
+    | some m => [("vars", .map [("users", .list ((List.range m).map fun k =>
+        .map [("id", .str s!"w{k}"), ("name", .str s!"m{k}")]))])]
+    | none => [])
 
 def evStr : Ev String → Option String
   | .request r => some r
@@ -349,21 +352,25 @@ structure ShotIn where
   idx : Nat
   sc : Scenario ReqDef
 
-def drawsOfEvent (e : String) : List Nat :=
+/-- rows drawn by `[next]` that a logged request shows (`N.<var>=u<k>` from `source.users`, `…=w<k>` from
+`source.vars.users`), in header order; `pfx` restricts to one source -/
+def drawsOfEventP (pfx : List String) (e : String) : List Nat :=
   if !e.startsWith "R~" then [] else
   let hs := (e.splitOn "~").getD 3 ""
   (splitNE hs ",").filterMap fun h =>
     if h.startsWith "N." then
       match h.splitOn "=" with
-      | [_, v] => if v.startsWith "u" then (v.drop 1).toString.toNat? else none
+      | [_, v] => if pfx.any (v.startsWith ·) then (v.drop 1).toString.toNat? else none
       | _ => none
     else none
+
+def drawsOfEvent (e : String) : List Nat := drawsOfEventP ["u", "w"] e
 
 /-- run the shots of one instance; `feeds` (open-system view) gives per shot the rows its visible draws received.
 Returns event strings per shot, the iterator state and the draws that were visible to the target (a draw of a
 step whose request never left — template error after the preprocessor — is hidden: it is the last of its shot).
 `none` = the model predicts a panic. -/
-def runInstance (w : World String Resp) (rows : Nat) (shots : List ShotIn) (feeds : Option (List (List Nat)))
+def runInstance (w : World String Resp) (rows : Nat) (rows2 : Option Nat) (shots : List ShotIn) (feeds : Option (List (List Nat)))
     (it0 : Iter) (hist0 : List String) : Option (List (List String) × Iter × List ((Nat × String) × Nat)) :=
   let rec go : List ShotIn → Nat → Iter → List String → List (List String) → List ((Nat × String) × Nat) →
       Option (List (List String) × Iter × List ((Nat × String) × Nat))
@@ -372,7 +379,7 @@ def runInstance (w : World String Resp) (rows : Nat) (shots : List ShotIn) (feed
       let it := match feeds with
         | some fs => { it with feed := some (fs.getD k []) }
         | none => it
-      match shoot w (sourceVal rows) s.sc { iter := it, hist := hist, log := [] } with
+      match shoot w (sourceVal rows rows2) s.sc { iter := it, hist := hist, log := [] } with
       | none => none
       | some (_, g) =>
         let evs := ("S~" ++ toString s.idx ++ "~" ++ esc (String.ofList s.sc.name)) :: g.log.filterMap evStr
@@ -405,6 +412,7 @@ def handleGun (kv : List (String × String)) (impl : String) : String × String 
   let nInst := max 1 ((getN? kv "inst").getD 1)
   let nShots := (getN? kv "shots").getD 0
   let rows := (getN? kv "L").getD 0
+  let rows2 := getN? kv "L2"
   let reqs := parseReqs (getS kv "rq")
   let scs := parseSc (getS kv "sc")
   let oracles := (getS kv "or").splitOn "/"
@@ -421,7 +429,7 @@ def handleGun (kv : List (String × String)) (impl : String) : String × String 
     -- model observation: closed system for one instance, open-system view (observed rows) for several
     let closed := nInst == 1
     let runI (i : Nat) (useFeed : Bool) :=
-      runInstance (world reqs rows i ((oracles.getD i "").splitOn ",")) rows (shotsOf i)
+      runInstance (world reqs rows i ((oracles.getD i "").splitOn ",")) rows rows2 (shotsOf i)
         (if useFeed then some (feedsOf i) else none) Iter.empty []
     let outs := (List.range nInst).map fun i => runI i (!closed)
     -- the model has no reachable panic inside a shot (an empty data source is an error since d4ccb1f)
@@ -429,12 +437,12 @@ def handleGun (kv : List (String × String)) (impl : String) : String × String 
     let outs' := outs.filterMap id
     let parts := (List.range nInst).zip outs' |>.map fun (i, (evs, _, _)) =>
       s!"i{i}=" ++ String.intercalate "|" evs.flatten
-    let visible (evs : List (List String)) : List Nat := evs.flatten.flatMap drawsOfEvent
-    let allRows := (outs'.flatMap fun (evs, _, _) => visible evs).mergeSort (· ≤ ·)
-    let mobs := "ok " ++ String.intercalate " " parts ++ " rows=" ++ natsStr allRows
-    -- requests with a header named url / body: what is sent depends on whether the templater's cache-key repair
-    -- (fixes/C15-templater-cache-key.diff) has landed; the model predicts nothing, the Spec below still judges
-    let mobs := if reqs.any collides then "-" else mobs
+    let visible (pfx : String) (evs : List (List String)) : List Nat := evs.flatten.flatMap (drawsOfEventP [pfx])
+    let allRows := (outs'.flatMap fun (evs, _, _) => visible "u" evs).mergeSort (· ≤ ·)
+    let allRows2 := (outs'.flatMap fun (evs, _, _) => visible "w" evs).mergeSort (· ≤ ·)
+    let mobs := "ok " ++ String.intercalate " " parts ++ " rows=" ++ natsStr allRows ++
+      (if rows2.isSome then " rows2=" ++ natsStr allRows2 else "")
+    -- (a header literally named url / body is an ordinary header since the templater's cache-key repair 2826876)
     -- Spec on the implementation's observation
     let verdict : String :=
       if !impl.startsWith "ok " then s!"fail:crash:{impl.take 80}" else
@@ -452,15 +460,19 @@ def handleGun (kv : List (String × String)) (impl : String) : String × String 
             match evs with
             | s :: rest =>
               let scName := unesc ((s.splitOn "~").getD 2 "")
-              let j := ((s.splitOn "~").getD 1 "").toNat?.getD 0
-              -- which scenario was due: delivery in ring order
-              let due := (deliver ring j).map fun sc => String.ofList sc.name
-              if due != some scName then s!"fail:weights:shot {j} got {scName}"
-              else shotVerdict scName (expected scName) (rest.filterMap toOEv)
+              shotVerdict scName (expected scName) (rest.filterMap toOEv)
             | [] => "ok"
+        -- the scenarios of shots 0, 1, 2, … (over all instances): every complete pass in proportion to the weights
+        let shotNames : List (Nat × String) := (List.range nInst).flatMap fun i =>
+          (splitShots (implInst i)).filterMap fun evs => evs.head?.map fun s =>
+            (((s.splitOn "~").getD 1 "").toNat?.getD 0, unesc ((s.splitOn "~").getD 2 ""))
+        let delivered := (shotNames.mergeSort fun a b => a.1 ≤ b.1).map fun p => p.2.toList
         match shotVerdicts.find? (· != "ok") with
         | some v => v
         | none =>
+          if !ringOK (scs.map (·.name)) (scs.map (·.weight)) delivered then
+            "fail:weights:the scenarios of the shots are not in proportion to the weights"
+          else
           if (List.range nInst).any (fun i => (splitShots (implInst i)).length != (shotsOf i).length) then
             "fail:count:number of shots"
           else
@@ -494,8 +506,7 @@ def handleGun (kv : List (String × String)) (impl : String) : String × String 
                 if mf == f then none
                 else if mf == "1" then some s!"i{i} {shot}: step {unesc it} was reported successful but it failed (see the target script and its extractors/assertions)"
                 else some s!"i{i} {shot}: step {unesc mt} was reported failed but nothing in it failed")
-          -- a deviation from the model in a case with a header named url / body is the templater's cache-key defect
-          let fkey (k : String) : String := if reqs.any collides then "fail:tmpl-cache:" ++ k ++ " " else "fail:" ++ k ++ ":"
+          let fkey (k : String) : String := "fail:" ++ k ++ ":"
           match stopv with
           | some d => fkey "stop" ++ (d.take 300).toString
           | none =>
@@ -507,6 +518,8 @@ def handleGun (kv : List (String × String)) (impl : String) : String × String 
           let key (k : Nat × String) : String := s!"{k.1}{k.2}"
           let counters := dedup (traces.flatten.map fun (k, _) => key k)
           let bad := counters.find? fun c =>
+            -- the counter of the second source (path `.source.vars.users[next]`) runs over its own number of rows
+            let rows := if (c.splitOn ".vars.").length > 1 then rows2.getD 0 else rows
             let perInst := traces.map fun tr => (tr.filter fun (k, _) => key k == c).map (·.2)
             let all := perInst.flatten
             -- a draw whose request never reached the target is invisible: the visible rows then have gaps
